@@ -233,19 +233,33 @@ def proved_theorems(coq_dir):
 
 # --------------------------------------------------------------------------- Go side
 
+ALT = REPO != '/repo'   # self-validation only: build against a scratch copy of the repository
+
+
+def bin_name(cmdname):
+    return cmdname + ('.alt' if ALT else '')
+
+
 def go_build(cmdname, timeout=1500):
     with Lock('go'):
-        shutil.copyfile(os.path.join(REPO, 'go.sum'), os.path.join(HARNESS, 'go.sum'))
         os.makedirs(os.path.join(HARNESS, 'bin'), exist_ok=True)
-        p = subprocess.run(['go', 'build', '-tags', 'verif', '-o', 'bin/' + cmdname, './cmd/' + cmdname],
-                           cwd=HARNESS, env=GOENV, stdout=subprocess.PIPE, stderr=subprocess.STDOUT,
+        cmd = ['go', 'build', '-tags', 'verif']
+        if ALT:
+            mod = open(os.path.join(HARNESS, 'go.mod')).read().replace('=> /repo', '=> ' + REPO)
+            open(os.path.join(HARNESS, 'go.alt.mod'), 'w').write(mod)
+            shutil.copyfile(os.path.join(REPO, 'go.sum'), os.path.join(HARNESS, 'go.alt.sum'))
+            cmd += ['-modfile=go.alt.mod']
+        else:
+            shutil.copyfile(os.path.join(REPO, 'go.sum'), os.path.join(HARNESS, 'go.sum'))
+        cmd += ['-o', 'bin/' + bin_name(cmdname), './cmd/' + cmdname]
+        p = subprocess.run(cmd, cwd=HARNESS, env=GOENV, stdout=subprocess.PIPE, stderr=subprocess.STDOUT,
                            text=True, timeout=timeout)
     return p.returncode == 0, p.stdout
 
 
 def run_harness(cmdname, outdir, seed, tier, extra_args=(), replay=None, timeout=600, taskset=None, env=None):
     os.makedirs(outdir, exist_ok=True)
-    cmd = [os.path.join(HARNESS, 'bin', cmdname), '--seed', str(seed), '--tier', tier, '--out', outdir]
+    cmd = [os.path.join(HARNESS, 'bin', bin_name(cmdname)), '--seed', str(seed), '--tier', tier, '--out', outdir]
     if replay:
         cmd += ['--replay', replay]
     cmd += list(extra_args)
@@ -356,6 +370,9 @@ def known_findings(pid):
 # --------------------------------------------------------------------------- evidence / driver
 
 def write_evidence(pid, ev):
+    if ALT:   # never overwrite real evidence with a run against a scratch copy
+        json.dump(ev, open(os.path.join(WORK, pid, 'evidence-alt.json'), 'w'), indent=1, sort_keys=True)
+        return
     os.makedirs(EVID, exist_ok=True)
     tmp = os.path.join(EVID, pid + '.json.tmp')
     json.dump(ev, open(tmp, 'w'), indent=1, sort_keys=True)
